@@ -9,8 +9,8 @@ package main
 //   uid / gid               (owner of a file the account creates)
 // Every request of the history is one lookup of Model.IAM; the answers are compared with the model
 // and the observed history is judged by the Spec oracle.  Then: parallel admin mutations + restart,
-// and — when the gateway was built with the hook of docs/C17-hooks.patch — the miss-path race
-// steered from outside through VGW_VERIF_IAM_MISS_GATE.
+// and the miss-path race, steered from outside through the yield point of auth/iam_cache_hook_verif.go
+// (build tag verif; files below VGW_VERIF_IAM_MISS_GATE).
 
 import (
 	"encoding/hex"
@@ -277,12 +277,13 @@ func c17Expect(modelRes string, kind string, secret string, second bool) string 
 
 // ---------------------------------------------------------------- cache keys that alias request memory
 
-// c17Alias runs the minimal witness of a defect that only exists in the running gateway (the
-// in-process tie passes ordinary Go strings): icache.update assigns `items[k] = item` with the k it
-// was given — Go's map assignment replaces the stored key by it — and the admin controller passes
-// ctx.Query("access"), a string into the request's memory, which fasthttp reuses.  The next admin
-// request with another access key of the same length rewrites the cached key: the deleted key b
-// now names a's entry.  Returns whether the defect shows.
+// c17Alias: REGRESSION stage (must pass) for a defect of the code before 6f25651 that only exists in
+// the running gateway (the in-process tie passes ordinary Go strings): the old icache.update
+// assigned `items[k] = item` with the k it was given — Go's map assignment replaces the stored key
+// by it — and the admin controller passes ctx.Query("access"), a string into the request's memory,
+// which fasthttp reuses.  The next admin request with another access key of the same length rewrote
+// the cached key: the deleted key b then named a's entry.  The cache must own its keys
+// (strings.Clone).  Returns whether the defect shows.
 func c17Alias(a lib.Args, res *lib.Result, v c17Variant) (bool, error) {
 	// whether the overwritten memory is the one the key points to depends on which request object
 	// fasthttp hands to the next request: a few attempts
@@ -324,20 +325,20 @@ func c17AliasOnce(a lib.Args, res *lib.Result, v c17Variant, try int) (bool, err
 	res.Count("e2e-alias", true, "e2e-alias:update-then-other-key")
 	if out[0] != "ok" {
 		res.Fail(lib.Failure{Kind: "property", Signature: "iam:update-user:cache-key-aliases-request-memory",
-			What: "real gateway: after update-user of account a, delete-user of account b is acknowledged, and a request signed with the deleted access key b and a's secret is authenticated (the cached key of a's entry points into request memory that the delete-user request overwrote)",
+			What:  "real gateway: after update-user of account a, delete-user of account b is acknowledged, and a request signed with the deleted access key b and a's secret is authenticated (the cached key of a's entry points into request memory that the delete-user request overwrote)",
 			Input: map[string]interface{}{"stage": "e2e-alias", "ops": ops, "probe": "GET / signed with access b, secret s3"}, Impl: strings.Join(obs, " "), Model: "ok ok ok ok nokey"})
 		return true, nil
 	}
 	return p.What != "nokey", nil
 }
 
-// c17AliasMiss: the same hazard on the miss path.  GetUserAccount stores what it fetched under the
-// caller's `access` string; the authentication middleware hands over a view into fasthttp's request
-// memory whenever ParseAuthorization did not have to copy the header (no blank after the commas)
-// or the key came from a presigned URL's query.  When the request object is reused, the cached key
-// changes under the map: valid requests of other accounts find the wrong entry and are refused.
-// Several accounts, no account change at all, a freshly started gateway (cold cache), concurrent
-// requests — sporadic by nature: reported when it shows.
+// c17AliasMiss: REGRESSION stage (must pass: 0 refused) for the same hazard on the miss path.  The
+// old GetUserAccount stored what it fetched under the caller's `access` string; the authentication
+// middleware hands over a view into fasthttp's request memory whenever ParseAuthorization did not
+// have to copy the header (no blank after the commas) or the key came from a presigned URL's
+// query.  When the request object was reused, the cached key changed under the map: valid requests
+// of other accounts found the wrong entry and were refused (146 of 7200 before the fix).  Several
+// accounts, no account change at all, a freshly started gateway (cold cache), concurrent requests.
 func c17AliasMiss(a lib.Args, res *lib.Result, v c17Variant) error {
 	rounds := 3
 	if a.Thorough() {
@@ -390,7 +391,7 @@ func c17AliasMiss(a lib.Args, res *lib.Result, v c17Variant) error {
 			}
 			if out[0] != "ok" {
 				res.Fail(lib.Failure{Kind: "property", Signature: "iam:miss-path-cache-key-aliases-request-buffer",
-					What: fmt.Sprintf("real gateway, cold cache, four accounts that are never changed, concurrent valid requests (Authorization header without blanks after the commas): %d of %d were refused (%s for account %q): the lookup found another account's entry, whose cached key is a view into reused request memory", len(bads), n, b.obs.What, b.k),
+					What:  fmt.Sprintf("real gateway, cold cache, four accounts that are never changed, concurrent valid requests (Authorization header without blanks after the commas): %d of %d were refused (%s for account %q): the lookup found another account's entry, whose cached key is a view into reused request memory", len(bads), n, b.obs.What, b.k),
 					Input: map[string]interface{}{"stage": "e2e-alias-miss", "accounts": accts, "note": "sporadic: depends on which request objects fasthttp reuses"}, Impl: b.obs.What, Model: "in"})
 				return nil
 			}
@@ -550,25 +551,6 @@ func c17RunE2E(a lib.Args, idx int, h c17E2EHist) (c17E2ERun, error) {
 	return run, nil
 }
 
-// while cache keys alias request memory (c17Alias), an update-user followed by an update-user /
-// delete-user of ANOTHER key in the same process is that defect again: the generated histories stay
-// on the updated key until the next restart, so that they test everything else
-func c17ConfineAfterUpdate(ops []c17Op) []c17Op {
-	pinned := ""
-	for i := range ops {
-		o := &ops[i]
-		switch {
-		case o.Kind == "restart":
-			pinned = ""
-		case o.Kind == "update" && pinned == "":
-			pinned = o.Key
-		case (o.Kind == "update" || o.Kind == "delete") && pinned != "":
-			o.Key = pinned
-		}
-	}
-	return ops
-}
-
 func c17GenE2E(r *lib.Rand, v c17Variant) c17E2EHist {
 	h := c17E2EHist{Stage: "e2e", Var: v}
 	switch x := r.Intn(100); {
@@ -633,11 +615,6 @@ func c17E2ESeq(a lib.Args, res *lib.Result, v c17Variant, alias bool) error {
 		r := lib.NewRandStream(a.Seed, 1704)
 		for i := 0; i < n; i++ {
 			hists = append(hists, c17GenE2E(r, v))
-		}
-		// (always: whether the aliasing shows in a given run depends on which request objects
-		// fasthttp reuses, so a probe cannot tell that it is absent; c17Alias tests that pattern)
-		for i := range hists {
-			hists[i].Ops = c17ConfineAfterUpdate(hists[i].Ops)
 		}
 	}
 	runs := make([]c17E2ERun, len(hists))
@@ -840,8 +817,10 @@ func c17E2EPar(a lib.Args, res *lib.Result, v c17Variant) error {
 
 // ---------------------------------------------------------------- the miss-path race on a real gateway
 
-// c17E2ERace needs the yield point of docs/C17-hooks.patch in the gateway binary (steered through
-// files below VGW_VERIF_IAM_MISS_GATE).  Without it the stage is skipped (and says so).
+// c17E2ERace uses the yield point in GetUserAccount of the gateway binary (auth/iam_cache_hook_verif.go,
+// build tag verif, steered through files below VGW_VERIF_IAM_MISS_GATE): the lookup is parked
+// between its fetch and its cache step while the admin API acknowledges a change.  A gateway
+// without the yield point is an error of the set-up (./check always builds with -tags verif).
 func c17E2ERace(a lib.Args, res *lib.Result, v c17Variant) error {
 	acc := c17Acct{"a", "s1", "userplus", 5, 1000}
 	s2 := "s2"
@@ -875,9 +854,7 @@ func c17E2ERace(a lib.Args, res *lib.Result, v c17Variant) error {
 			os.Remove(hold)
 			<-first
 			e.close()
-			res.Note("e2e race: the gateway binary has no yield point in GetUserAccount (docs/C17-hooks.patch not applied): stage skipped; the same interleaving is executed in-process by c17Conc")
-			res.Histogram["e2e-race:skipped:no-hook"]++
-			return nil
+			return fmt.Errorf("e2e race: the lookup did not park at the yield point of GetUserAccount within 3 s: the gateway binary %s was not built with -tags verif (auth/iam_cache_hook_verif.go), or the call site verifMissFetched is gone", a.GwBin)
 		}
 		ack := e.admin(change) // complete, acknowledged
 		os.Remove(hold)        // the lookup stores what it fetched
